@@ -33,11 +33,7 @@ IMPORTS = ["Cstl.HeapL.Props"]
 
 _H = "Cstl.HeapL."
 
-THEOREMS = {
-    "C07": [_H + n for n in (
-        # filled in below from what lean/Cstl/HeapL/Props.lean proves
-    )],
-}
+THEOREMS = {"C07": []}     # filled in below: every `theorem` of lean/Cstl/HeapL/Props.lean
 
 TIE_MODULE = "Cstl.HeapL.Tie"
 
@@ -55,8 +51,18 @@ def _theorems_of(relpath, ns):
     return [ns + n for n in re.findall(r"^theorem\s+(\S+)", open(p).read(), flags=re.M)]
 
 
+# every `theorem` of Props.lean is a property theorem (helper lemmas live in the other files)
 THEOREMS["C07"] = _theorems_of("Cstl/HeapL/Props.lean", _H)
-TIE_THEOREMS = _theorems_of("Cstl/HeapL/Tie.lean", "Cstl.HeapL.Tie.")
+assert set(THEOREMS["C07"]) >= set(_H + n for n in (
+    "heap_find_refines", "heap_find_level_order", "heap_push_refines", "heap_pop_refines", "heap_get_refines",
+    "heap_clear_refines", "heap_step_refines", "heap_runL_refines", "heap_history_refines",
+    "heap_parent_links_ok", "heap_history_max")) or not THEOREMS["C07"]
+
+# translator ties (tools/c2lean_heap.py -> Cstl/Gen/HeapC.lean; fixed equalities in Cstl/HeapL/Tie.lean)
+TIE_AREA = "heapl_all"
+TIE_THEOREMS = ["Cstl.HeapL.Tie." + n for n in (
+    "fls_loop_tie", "fls_tie", "find_loop_tie", "find_tie", "promote_tie", "get_tie",
+    "push_loop_tie", "push_tie", "pop_loop_tie", "pop_tie")]
 
 # quick / thorough scope of the correspondence (same closures and histories as tools/props/C07.py)
 SCOPE = {
@@ -144,7 +150,18 @@ def link_level_run(chk, c_exe=None):
     if c_exe is None:
         c_exe, m_exe = vlib.prepare_area(chk, me, leanchecker=True)
     else:
-        _, m_exe = vlib.prepare_area(chk, me, leanchecker=True)
+        # the harness of the heap area is this area's harness: build the Lean side only
+        ok, out = vlib.lake_build(LEAN_TARGETS)
+        if not ok:
+            errs = [l for l in out.split("\n") if "error" in l][:5]
+            chk.build_problems.append(("lake build %s" % " ".join(LEAN_TARGETS), " | ".join(errs) or out[-500:]))
+        for h in vlib.grep_forbidden(IMPORTS + ["Cstl.HeapL.Main"]):
+            if h not in chk.forbidden:
+                chk.forbidden.append(h)
+        chk.theorems.update(vlib.audit(THEOREMS["C07"], IMPORTS, leanchecker=chk.tier == "thorough"))
+        m_exe = vlib.model_exe(NAME)
+        if not os.path.exists(m_exe):
+            m_exe = None
     if not c_exe or not m_exe:
         return False
     # own random stream: does not disturb the histories the functional check draws from chk.rng
@@ -210,7 +227,7 @@ def standalone_verdict(chk):
         print("OK heapl tier=%s seed=%d theorems=%d/%d scripts=%d ops=%d mismatches=%d translator=%s"
               % (chk.tier, chk.seed, sum(1 for ok, _ in chk.theorems.values() if ok), len(chk.theorems),
                  chk.stats["scripts"], chk.stats["evaluations"], len(chk.mismatches),
-                 json.dumps(chk.extra.get("translator", {}).get("heapl_all", {}))))
+                 json.dumps(chk.extra.get("translator", {}).get(TIE_AREA, {}))))
     return rc
 
 
@@ -223,8 +240,53 @@ def run_check(chk):
     return standalone_verdict(chk)
 
 
+def replay(path):
+    """replay a recorded input on the real code and on the link-level model"""
+    import json
+    import vlib
+    me = sys.modules[__name__]
+    r = json.load(open(path))
+    chk = vlib.Check("C07", "quick", 0)
+    c_exe, m_exe = vlib.prepare_area(chk, me, theorems=[])
+    d = r.get("detail") or {}
+    ops = r.get("ops") or d.get("minimised") or d.get("script")
+    if not ops or not c_exe or not m_exe:
+        print("nothing to replay (no operation list in %s)" % path)
+        return 2
+    c, m = vlib.run_pair(c_exe, m_exe, [ops], jobs=1)
+    for op, a, b in zip(ops, c[0] + ["<missing>"] * len(ops), m[0] + ["<missing>"] * len(ops)):
+        print("%-20s impl : %s\n%-20s model: %s" % (op, a[:300], "", b[:300]))
+    w = oracle("C07", ops, c[0])
+    print("oracle:", w or "property holds on this input")
+    return 1 if w else 0
+
+
 def tie_run(chk):
-    """filled in below"""
+    """Translator ties of C07's pointer level: `cstl_fls` (src/common.c) and `cstl_heap_find`,
+    `cstl_heap_promote_child`, `cstl_heap_push`, `cstl_heap_get`, `cstl_heap_pop` (src/heap.c) are
+    re-translated from the current source by tools/c2lean_heap.py, the translation is compiled in a
+    scratch directory that shadows the committed lean/Cstl/Gen/HeapC.lean, and the fixed theorems
+    `translation = model` of lean/Cstl/HeapL/Tie.lean are re-checked by the kernel against it, with
+    the axiom audit (vlib.translator_tie does the work; the area is registered here, at run time)."""
+    import vlib
+    import c2lean
+    import c2lean_heap
+    c2lean.AREAS[TIE_AREA] = dict(src="heap.c + common.c", module=c2lean_heap.MODULE,
+                                  custom=lambda repo: c2lean_heap.translate(repo))
+    ok, out = vlib.lake_build(["Cstl.HeapL.Tie"])
+    if not ok:
+        errs = [l for l in out.split("\n") if "error" in l][:5]
+        # the committed copy may simply be out of date; the check below uses the regenerated one
+        chk.notes.append("lake build Cstl.HeapL.Tie (against the committed Cstl/Gen/HeapC.lean): " + (" | ".join(errs) or out[-300:]))
+    for h in vlib.grep_forbidden([TIE_MODULE]):
+        if h not in chk.forbidden:
+            chk.forbidden.append(h)
+    vlib.translator_tie(chk, TIE_AREA, TIE_MODULE, TIE_THEOREMS)
+    rep = chk.extra.get("translator", {}).get(TIE_AREA, {})
+    for fn, st in sorted(rep.items()):
+        if not st.startswith("translated"):
+            # a function the translator can no longer read: its tie theorems cannot check
+            chk.notes.append("c2lean_heap: %s %s" % (fn, st))
     return True
 
 
